@@ -358,3 +358,22 @@ func (v *VerifHTree) Snapshot() string {
 	}
 	return sb.String()
 }
+
+// VerifHintMergeMode is VerifHintMerge with the merge's forGC argument exposed (forGC = true: the merge GC runs before a
+// pass, which writes no merged file and only reports collisions).
+func VerifHintMergeMode(paths []string, chunks []int, dst string, forGC bool) (collisions []VerifHintItem, err error) {
+	readers := make([]*hintFileReader, len(paths))
+	for i, p := range paths {
+		readers[i] = newHintFileReader(p, chunks[i], 4096)
+	}
+	ct := newCollisionTable()
+	state := HintStateIdle
+	_, err = merge(readers, dst, ct, &state, forGC)
+	for _, m := range ct.Items {
+		for _, it := range m {
+			it := it
+			collisions = append(collisions, verifFromItem(&it))
+		}
+	}
+	return
+}
